@@ -265,6 +265,7 @@ type c18Job struct {
 	N      int
 	Search bool
 	Sweep  bool // enumerate the rune-pair sweep instead of drawing N inputs
+	Lo, Hi int  // sweep: input indexes [Lo, Hi)
 }
 
 type c18Finding struct {
@@ -306,11 +307,14 @@ func c18Child(in json.RawMessage) (interface{}, error) {
 			out.Findings = append(out.Findings, c18Finding{Key: key, What: what, Input: append([]byte(nil), input...), Class: class})
 		}
 	}
-	n := job.N
+	start, n := 0, job.N
 	if job.Sweep {
-		n = c18SweepInputs()
+		start, n = job.Lo, job.Hi
+		if n == 0 || n > c18SweepInputs() {
+			n = c18SweepInputs()
+		}
 	}
-	for i := 0; i < n; i++ {
+	for i := start; i < n; i++ {
 		var class string
 		var input []byte
 		if job.Sweep {
@@ -500,39 +504,57 @@ func runC18(c *vk.Ctx) {
 	per := c.Pick(1500, 120000)
 	var cases []interface{}
 	var names []string
+	// every component's inputs are cut into chunks of at most 2000 (one case each), so that the progress
+	// watchdog of the child runner sees a finished case every few seconds even on a loaded machine
+	const chunk = 2000
+	addJobs := func(kind, name, label string, n int, search bool) {
+		for k := 0; k*chunk < n; k++ {
+			m := chunk
+			if (k+1)*chunk > n {
+				m = n - k*chunk
+			}
+			cases = append(cases, c18Job{Kind: kind, Name: name, Seed: vk.SubSeed(c.Seed, fmt.Sprintf("%s-%s-%d", label, name, k)), N: m, Search: search})
+			names = append(names, kind+":"+name)
+		}
+		if kind == "charfilter" {
+			return
+		}
+		// the enumerated rune-pair sweep through every analyzer, tokenizer and token filter
+		for lo := 0; lo < c18SweepInputs(); lo += chunk {
+			hi := lo + chunk
+			if hi > c18SweepInputs() {
+				hi = c18SweepInputs()
+			}
+			cases = append(cases, c18Job{Kind: kind, Name: name, Sweep: true, Lo: lo, Hi: hi, Search: search && !c.Quick()})
+			names = append(names, kind+":"+name)
+		}
+	}
 	for name := range c18Analyzers {
-		cases = append(cases, c18Job{Kind: "analyzer", Name: name, Seed: vk.SubSeed(c.Seed, "an-"+name), N: per, Search: true})
-		names = append(names, "analyzer:"+name)
+		addJobs("analyzer", name, "an", per, true)
 	}
 	for name := range c18Tokenizers() {
-		cases = append(cases, c18Job{Kind: "tokenizer", Name: name, Seed: vk.SubSeed(c.Seed, "tk-"+name), N: per})
-		names = append(names, "tokenizer:"+name)
+		addJobs("tokenizer", name, "tk", per, false)
 	}
 	for name := range c18Filters() {
-		cases = append(cases, c18Job{Kind: "filter", Name: name, Seed: vk.SubSeed(c.Seed, "tf-"+name), N: per / 2})
-		names = append(names, "filter:"+name)
+		addJobs("filter", name, "tf", per/2, false)
 	}
 	for name := range c18CharFilters() {
-		cases = append(cases, c18Job{Kind: "charfilter", Name: name, Seed: vk.SubSeed(c.Seed, "cf-"+name), N: per / 2})
-		names = append(names, "charfilter:"+name)
-	}
-	// the enumerated rune-pair sweep through every analyzer, tokenizer and token filter
-	for i, n := 0, len(cases); i < n; i++ {
-		job := cases[i].(c18Job)
-		if job.Kind == "charfilter" {
-			continue
-		}
-		job.Sweep, job.Search = true, job.Search && !c.Quick()
-		cases = append(cases, job)
-		names = append(names, names[i])
+		addJobs("charfilter", name, "cf", per/2, false)
 	}
 	c.Set("pair_sweep_pairs", c18SweepPairs())
-	results := vk.RunChildren(c.Scratch(), "c18", cases, vk.ChildOpts{PerChild: 1, Parallel: runtime.NumCPU(), CaseTimeout: 120 * time.Second, RlimitMB: 3072})
-	for i, res := range results {
+	opts := vk.ChildOpts{PerChild: 8, Parallel: runtime.NumCPU(), CaseTimeout: 120 * time.Second, RlimitMB: 3072}
+	results := vk.RunChildren(c.Scratch(), "c18", cases, opts)
+	for i := range results {
+		res := results[i]
 		job := cases[i].(c18Job)
+		if res.Reran {
+			// the runner's watchdog fired once; it has run the chunk again, alone, with a five-minute
+			// watchdog: only a chunk of <= 2000 short inputs that stalls then as well is reported
+			c.Event("chunks_rerun_after_watchdog", 1)
+		}
 		if res.Hung {
 			c.Inconclusive("watchdog:" + names[i])
-			c.Violate("analysis-does-not-terminate:"+job.Name, fmt.Sprintf("%s made no progress for 120 s: %s", names[i], firstLines(res.Died, 30)), job)
+			c.Violate("analysis-does-not-terminate:"+job.Name, fmt.Sprintf("%s: a chunk of %d inputs made no progress for 120 s and, run again alone, for 300 s: %s", names[i], job.N+job.Hi-job.Lo, firstLines(res.Died, 30)), job)
 			continue
 		}
 		if res.Faulted() {
